@@ -105,6 +105,9 @@ type job struct {
 	Bufio int ` + "`json:\"bufio\"`" + `
 	// GC: run two garbage collections first, which empties sync.Pools.
 	GC bool ` + "`json:\"gc\"`" + `
+	// ToGoHTML: render with templ.ToGoHTML (the root package's pooled bytes.Buffer) instead of
+	// Render into a writer; Out is the returned HTML.
+	ToGoHTML bool ` + "`json:\"to_go_html\"`" + `
 }
 
 type bufSlot struct {
@@ -218,7 +221,15 @@ func runJob(j job, parallel bool) (r result) {
 			ctx = c
 		}
 		c := roots[j.K](a.S1, a.S2, a.B1, a.B2, a.N, a.XS, a.Fail, comp)
-		if err := c.Render(ctx, dst); err != nil {
+		render := func() error { return c.Render(ctx, dst) }
+		if j.ToGoHTML {
+			render = func() error {
+				h, err := templ.ToGoHTML(ctx, c)
+				w.buf.WriteString(string(h))
+				return err
+			}
+		}
+		if err := render(); err != nil {
 			r.Err = err.Error()
 			r.Boom = errors.Is(err, errBoom)
 			r.WriterErr = errors.Is(err, errWriter)
